@@ -171,6 +171,29 @@ theorem filePart_consume (c : ClientCfg) (f : FileUp) (h : NoStream f) :
   | path cc => rfl
   | seeker cc b => simp [filePart, fileContent, FileSrc.consume, R, Variant.repaired]
 
+theorem not_closed_of_noStream (f : FileUp) (h : NoStream f) : f.closed = false := by
+  obtain ⟨p, n, ct, src⟩ := f
+  cases src with
+  | closer cc b => exact absurd rfl (h.2 cc b)
+  | _ => rfl
+
+theorem fileParts_eq_map (v : Variant) (c : ClientCfg) (files : List FileUp) (h : ∀ f ∈ files, NoStream f) :
+    fileParts v c files = files.map (filePart v c) := by
+  unfold fileParts
+  congr 1
+  apply List.filter_eq_self.mpr
+  intro f hf
+  simp [not_closed_of_noStream f (h f hf)]
+
+theorem noStream_consume (f : FileUp) (h : NoStream f) : NoStream { f with src := f.src.consume } := by
+  obtain ⟨p, n, ct, src⟩ := f
+  cases src with
+  | stream cc b => exact absurd rfl (h.1 cc b)
+  | closer cc b => exact absurd rfl (h.2 cc b)
+  | bytes cc => constructor <;> intro x y hh <;> simp [FileSrc.consume] at hh
+  | path cc => constructor <;> intro x y hh <;> simp [FileSrc.consume] at hh
+  | seeker cc b => constructor <;> intro x y hh <;> simp [FileSrc.consume] at hh
+
 theorem noStream_of_replayable (st : ReqState) (h : unreplayable R st = false) :
     ∀ f ∈ st.files, NoStream f := by
   intro f hf
@@ -217,6 +240,13 @@ theorem parseBody_fix (c : ClientCfg) (hx : c.isXML c.jsonCT = false) (j k : Nat
         intro f _
         simp [consume_idem]
       · congr 1
+        have e1 := fileParts_eq_map R c st.files hfiles
+        have e2 := fileParts_eq_map R c (st.files.map fun f => { f with src := f.src.consume }) (by
+          intro f hf
+          obtain ⟨g, hg, rfl⟩ := List.mem_map.mp hf
+          exact noStream_consume g (hfiles g hg))
+        simp only [R, Variant.repaired] at e1 e2
+        rw [e1, e2]
         simp only [List.map_map]
         apply List.map_congr_left
         intro f hf
